@@ -2,6 +2,7 @@
 import WrapModel.Model.Hex
 import WrapModel.Model.Parse
 import WrapModel.Model.Dump
+import WrapModel.Model.IDump
 
 namespace WrapModel.Driver
 open WrapModel
@@ -18,6 +19,16 @@ def handle (fields : List String) : String :=
       match Parse.parseModule text with
       | .ok m => okLine (Dump.module m)
       | .error e => errLine e
+  | ["inst", h] =>
+    match Hex.decode h with
+    | none => "bad\thex"
+    | some text =>
+      match Parse.parseModule text with
+      | .error e => errLine e
+      | .ok m =>
+        match Inst.instModule m with
+        | .ok im => okLine (IDump.imodule im)
+        | .error e => errLine e
   | _ => "bad\top"
 
 end WrapModel.Driver
